@@ -1,6 +1,16 @@
 # Human-written level texts per claimed property (used by tools/gen_manifest.py).
 HOOK_COMMITS = []
 META = {
+    "C05": {
+        "text": "Bounded model checking with the crash point as a solver variable: the real write and replication paths run over a disk that logs every persistence effect in order, acknowledgement instants are recorded, the crash index is a symbolic integer over all prefixes of the effect log, and the real Load runs on the recovered prefix; the solver shows every acknowledged entry is recovered, nothing unwritten appears, the log is ancestry-closed and the view matches.",
+        "design_ref": "DESIGN.md §2 C05",
+        "note": "Trusted: gosym, z3, the effect-log disk model (each effect durable on return). Bounds: STEPS<=3 quick / 4 thorough, one local and one remote writer.",
+    },
+    "C16": {
+        "text": "Bounded model checking of the state-before-event clause on the real write and replication paths: emissions are intercepted synchronously and the real log/index/cache are queried at that instant, over every bounded history. Clauses about the real eventbus and the legacy emitter's goroutine interleavings are outside (stated).",
+        "design_ref": "DESIGN.md §2 C16",
+        "note": "Partial claim: clause (a) only. Bounds as C05.",
+    },
     "C01": {
         "text": "Bounded model checking of the whole replication pipeline on the real code: two writer stores and a fresh replica run the real AddOperation, Sync, replicator, ipfs-log fetcher, Join and index code inside the interpreter; the history shape is enumerated, keys/values are symbolic, and the solver shows that all replicas holding the same entries list them in the same order and expose the same view, equal to the replay of the log.",
         "design_ref": "DESIGN.md §2 C01",
